@@ -121,7 +121,12 @@ class Workload:
                 # response that nobody asked for. Whoever uses the connection next must not be handed it as their answer
                 return Resp(200, b"OK", hs, body, delay=delay,
                             after=b"HTTP/1.1 200 OK\r\nContent-Length: 6\r\nX-Echo: nobody\r\n\r\nstale!")
-            return Resp(200, b"OK", hs, body, delay=delay, body_delay=delay / 2 if delay else 0.0)
+            # now and then the final response is preceded by interim ones (any 1xx but 101 is to be skipped, RFC 9110 15.2)
+            interim = None
+            if modes and rr.random() < 0.12:
+                interim = [(rr.choice([100, 102, 103, 104, 199]), b"Interim", [(b"X-Echo", b"interim"), (b"X-Interim-For", tok)])
+                           for _ in range(rr.choice([1, 1, 2]))]
+            return Resp(200, b"OK", hs, body, delay=delay, body_delay=delay / 2 if delay else 0.0, interim=interim)
 
         h2s = {"data_chunk": 4000}
         if spec.get("h2_settings"):
